@@ -14,10 +14,10 @@ def jobs(tier):
     for n in registry.NAMES:
         if tier == 'quick':
             seeds = [(42, AMBIENT), (0, AMBIENT[:2]), (2 ** 32 - 1, AMBIENT[:2])]
-            protos = ['cont3z', 'mixed3', 'perm4']
+            protos = ['cont3z', 'mixed3', 'perm4', 'perm4s']
         else:
             seeds = [(s, AMBIENT) for s in SEEDS]
-            protos = ['cont3z', 'mixed3', 'perm4', 'mo2', 'scales4']
+            protos = ['cont3z', 'mixed3', 'perm4', 'perm4s', 'mo2', 'scales4']
         out.append(({'opt': n, 'runner': 'c07', 'protos': protos, 'seeds': seeds, 'proto': 'cont3z'}, {'d': 0}))
     return out
 
